@@ -466,7 +466,7 @@ def _await_descriptor_upload(tor_protocol, onion, progress, await_all_uploads):
                 )
                 if not uploaded.called:
                     if await_all:
-                        if (len(failed_uploads) + len(confirmed_uploads)) == len(attempted_uploads):
+                        if (failed_uploads | confirmed_uploads) >= attempted_uploads:
                             uploaded.callback(onion)
                     else:
                         uploaded.callback(onion)
